@@ -118,8 +118,19 @@ func LoadConf(yaml string) *conf.Conf {
 	return c
 }
 
-// Media of the fixture: one H.264 video track.
+// Audio selects a G.711 track instead of H.264 for the fixture (always-available paths: the offline
+// sub stream of a G.711 track needs no MP4 parsing). Set by scenario bodies before NewDesc.
+var Audio bool
+
+// Media of the fixture: one H.264 video track (or one G.711 track when Audio is set).
 func NewDesc() (*description.Session, *description.Media, format.Format) {
+	if Audio {
+		f := &format.G711{PayloadTyp: 8, MULaw: false, SampleRate: 8000, ChannelCount: 1}
+		m := &description.Media{Type: description.MediaTypeAudio, Formats: []format.Format{f}}
+		vsched.Name(m, "M")
+		vsched.Name(f, "F")
+		return &description.Session{Medias: []*description.Media{m}}, m, f
+	}
 	f := &format.H264{PayloadTyp: 96, PacketizationMode: 1}
 	m := &description.Media{Type: description.MediaTypeVideo, Formats: []format.Format{f}}
 	vsched.Name(m, "M")
@@ -157,7 +168,11 @@ func (p *PM) Publish(pub *Pub, name string, desc *description.Session) (*defs.Pa
 // Write writes unit (tag,id) through a publisher's substream.
 func Write(ss *stream.SubStream, m *description.Media, f format.Format, tag byte, id int) {
 	vsched.Log("begin %c%d", tag, id)
-	ss.WriteUnit(m, f, &unit.Unit{PTS: int64(id) * 3000, Payload: unit.PayloadH264{{1, tag, byte(id)}}})
+	if _, ok := f.(*format.G711); ok {
+		ss.WriteUnit(m, f, &unit.Unit{PTS: int64(id) * 160, Payload: unit.PayloadG711{tag, byte(id)}})
+	} else {
+		ss.WriteUnit(m, f, &unit.Unit{PTS: int64(id) * 3000, Payload: unit.PayloadH264{{1, tag, byte(id)}}})
+	}
 	vsched.Log("end %c%d", tag, id)
 }
 
@@ -176,8 +191,15 @@ func (p *PM) Read(r *Rdr, name string, m *description.Media, f format.Format) (*
 	sm := res.Stream.OrigDesc.Medias[0]
 	sr.OnData(sm, sm.Formats[0], func(u *unit.Unit) error {
 		vsched.Yield()
-		pl := u.Payload.(unit.PayloadH264)
-		vsched.Log("got %s %c%d", r.ID, pl[0][1], pl[0][2])
+		switch pl := u.Payload.(type) {
+		case unit.PayloadH264:
+			vsched.Log("got %s %c%d", r.ID, pl[0][1], pl[0][2])
+		case unit.PayloadG711:
+			// units of the offline sub stream (silence) are not publisher data: not logged
+			if len(pl) == 2 && pl[0] >= 'A' && pl[0] <= 'Z' {
+				vsched.Log("got %s %c%d", r.ID, pl[0], pl[1])
+			}
+		}
 		return nil
 	})
 	res.Stream.AddReader(sr)
